@@ -79,7 +79,7 @@ impl<const N: usize> RadioBuffer<N> {
     }
 
     pub(crate) fn extend_from_slice(&mut self, buf: &[u8]) -> Result<(), ()> {
-        if self.pos + buf.len() < self.packet.len() {
+        if self.pos + buf.len() <= self.packet.len() {
             self.packet[self.pos..self.pos + buf.len()].copy_from_slice(buf);
             self.pos += buf.len();
             Ok(())
